@@ -278,4 +278,6 @@ def solve(q, timeout_s=120, cross=True, workdir=None):
             q.cross = "timeout"
         if q.cross in ("sat", "unsat") and q.cross != q.result:
             q.result = "disagree"
+        elif q.cross not in ("sat", "unsat"):
+            q.result = "unknown"      # an (error line / timeout of the second solver = inconclusive
     return q.result
